@@ -36,33 +36,51 @@ def run_phases(
     extra: Optional[int],
     deadline: float,
     modname: Optional[str] = None,
+    by_depth: bool = False,
 ) -> Tuple[Stats, List[Dict[str, Any]], bool]:
+    """Every phase is enumerated level by level. by_depth: all phases advance together (depth 1 of every phase, then depth 2, ...), so that a budget
+    that runs out cuts the deepest level of every phase instead of dropping the phases that come last."""
     total = Stats()
-    info: List[Dict[str, Any]] = []
     all_complete = True
-    for ph in phases:
-        tree = Tree(first, symbols, ph["steps"], extra)
-        completed = 0
-        partial: Optional[int] = None
+    state = [{"tree": Tree(first, symbols, ph["steps"], extra), "completed": 0, "partial": None, "wall": 0.0, "executions": 0, "stopped": False} for ph in phases]
+
+    def run_level(ph: Dict[str, Any], stt: Dict[str, Any], depth: int) -> None:
+        nonlocal all_complete
+        if stt["stopped"]:
+            return
+        if time.time() > deadline:
+            all_complete = False
+            stt["stopped"] = True
+            return
         t0 = time.time()
         before = total.get("states") + total.get("evaluations")
-        for depth in range(ph.get("from_depth", 1), ph["depth"] + 1):
-            if time.time() > deadline:
-                all_complete = False
-                break
-            roots = tree.roots(depth)
-            groups = [ph["schedules"][i : i + ph["group"]] for i in range(0, len(ph["schedules"]), ph["group"])]
-            tasks = [(r, depth, g, ph["steps"], ph["dev"], ph.get("row_order", "chrono")) + ((modname,) if modname else ()) for g in groups for r in roots]
-            results, done = common.pmap(worker_fn, tasks, deadline=deadline)
-            for r in results:
-                if r is not None:
-                    total.merge(r)
-            if done == len(tasks):
-                completed = depth
-            else:
-                partial = depth
-                all_complete = False
-                break
+        roots = stt["tree"].roots(depth)
+        groups = [ph["schedules"][i : i + ph["group"]] for i in range(0, len(ph["schedules"]), ph["group"])]
+        tasks = [(r, depth, g, ph["steps"], ph["dev"], ph.get("row_order", "chrono")) + ((modname,) if modname else ()) for g in groups for r in roots]
+        results, done = common.pmap(worker_fn, tasks, deadline=deadline)
+        for r in results:
+            if r is not None:
+                total.merge(r)
+        if done == len(tasks):
+            stt["completed"] = depth
+        else:
+            stt["partial"] = depth
+            stt["stopped"] = True
+            all_complete = False
+        stt["wall"] += time.time() - t0
+        stt["executions"] += total.get("states") + total.get("evaluations") - before
+
+    if by_depth:
+        for depth in range(1, max((ph["depth"] for ph in phases), default=0) + 1):
+            for ph, stt in zip(phases, state):
+                if ph.get("from_depth", 1) <= depth <= ph["depth"]:
+                    run_level(ph, stt, depth)
+    else:
+        for ph, stt in zip(phases, state):
+            for depth in range(ph.get("from_depth", 1), ph["depth"] + 1):
+                run_level(ph, stt, depth)
+    info: List[Dict[str, Any]] = []
+    for ph, stt in zip(phases, state):
         info.append(
             {
                 "phase": ph["name"],
@@ -71,10 +89,10 @@ def run_phases(
                 "deviations": ph["dev"],
                 "row_order": ph.get("row_order", "chrono"),
                 "planned_depth": ph["depth"],
-                "completed_depth": completed,
-                "partial_depth": partial,
-                "executions": total.get("states") + total.get("evaluations") - before,
-                "wall_s": round(time.time() - t0, 1),
+                "completed_depth": stt["completed"],
+                "partial_depth": stt["partial"],
+                "executions": stt["executions"],
+                "wall_s": round(stt["wall"], 1),
             }
         )
     return total, info, all_complete
